@@ -151,7 +151,7 @@ def gen_expr(rng, restricted=False, closed=False, symbols=False):
             names = ["V", "t1", "t1cc"]       # products of three four-index tensors
     g = TermGen(rng, spaces="ov", n_tensors=(1, 3) if not closed else rng.choice([(2, 3), (3, 3), (3, 3)]),
                 max_contracted=3 if not closed else 5,
-                names=names, exclude=(), deltas=(0, 1) if not (restricted or closed) else (0, 0),
+                names=names, exclude=(), deltas=(0, 1) if not closed else (0, 0),
                 pool_size=5)
     nT = rng.randint(0, 3) if not closed else rng.randint(2, 4)
     T, seen = [], set()
